@@ -353,6 +353,7 @@ def check_c(ck, repo):
                     for m in ast.walk(helper.node):
                         if isinstance(m, ast.Constant) and isinstance(m.value, str) and m.value.isidentifier():
                             keys.add(m.value)
+        _check_value_filter(ck, gp, ci)
         for p in params:
             if p in keys:
                 ck.holds("C01.c", gp, f"get_params()['{p}'] ({ci.name})", "constructor parameter reported")
@@ -364,6 +365,37 @@ def check_c(ck, repo):
                     f"{owner.name if isinstance(owner, ClassInfo) else owner}.get_params never reports constructor parameter '{p}' of {ci.name}: "
                     f"clone() re-creates the object without it, so a non-default '{p}' is lost",
                 )
+
+
+_filter_seen = set()
+
+
+def _check_value_filter(ck, gp: FunctionInfo, ci):
+    """a custom get_params must not drop a parameter because of its VALUE
+    (None, falsy): clone()/set_params round trips rely on every parameter being
+    reported.  `hasattr(self, k)` (parameter never given) and `deep` are fine."""
+    if gp.qualname in _filter_seen and False:
+        return
+    value_names = set()
+    for n in own_nodes(gp.node):
+        if isinstance(n, ast.Assign) and len(n.targets) == 1 and isinstance(n.targets[0], ast.Name):
+            v = n.value
+            if (isinstance(v, ast.Call) and isinstance(v.func, ast.Name) and v.func.id == "getattr") or is_self_attr(v):
+                value_names.add(n.targets[0].id)
+        if isinstance(n, ast.For) and isinstance(n.target, ast.Tuple) and len(n.target.elts) == 2 and isinstance(n.iter, ast.Call) and isinstance(n.iter.func, ast.Attribute) and n.iter.func.attr == "items":
+            if isinstance(n.target.elts[1], ast.Name):
+                value_names.add(n.target.elts[1].id)
+    for n in own_nodes(gp.node):
+        if isinstance(n, ast.Assign) and any(isinstance(t, ast.Subscript) for t in n.targets):
+            for t, pol in enclosing_tests(n, gp.node):
+                names = names_in(t)
+                direct = any(isinstance(x, ast.Call) and isinstance(x.func, ast.Name) and x.func.id == "getattr" for x in ast.walk(t))
+                if (names & value_names) or direct:
+                    if any(isinstance(x, ast.Call) and isinstance(x.func, ast.Name) and x.func.id in ("isinstance", "hasattr") for x in ast.walk(t)) and not direct:
+                        continue
+                    ck.violated("C01.c", gp, t, f"{ci.name}.get_params reports a parameter only when its value passes `{src_of(t)}`: a parameter explicitly set to None/False disappears, so set_params/clone round trips change the configuration")
+                    return
+    ck.holds("C01.c", gp, f"{ci.name}.get_params: no value-dependent filtering", "parameters are reported whatever their value", nontrivial=False)
 
 
 # ------------------------------------------------------------------ C01.d
@@ -940,6 +972,8 @@ WITNESSES = [
     {"name": "cak-swapped-receivers", "file": _K, "rule": "C01.d", "old": "        self.clus.set_params(**pc)\n        self.estimator.set_params(**pe)\n", "new": "        self.clus.set_params(**pe)\n        self.estimator.set_params(**pc)\n"},
     {"name": "cak-wrong-prefix-len", "file": _K, "rule": "C01.d", "old": "pe[k[2:]] = v", "new": "pe[k[1:]] = v"},
     {"name": "cak-drops-estimator-key", "file": _K, "rule": "C01.c", "old": 'res = {"estimator": self.estimator, "clus": self.clus}', "new": 'res = {"clus": self.clus}'},
+    {"name": "stacking-single-digit-char", "file": _S, "rule": "C01.d", "old": "            i = int(si[0])\n", "new": "            i = int(k[d])\n"},
+    {"name": "anmf-drops-none-values", "file": "mlinsights/mlmodel/anmf_predictor.py", "rule": "C01.c", "old": "            if hasattr(self, k):\n                res[k] = getattr(self, k)\n", "new": "            v = getattr(self, k, None)\n            if v is not None:\n                res[k] = v\n"},
     {"name": "interval-param-renamed-attr", "file": "mlinsights/mlmodel/interval_regressor.py", "rule": "C01.a", "old": "        self.alpha = alpha\n", "new": "        self.alpha_ = alpha\n"},
     {"name": "interval-param-swapped", "file": "mlinsights/mlmodel/interval_regressor.py", "rule": "C01.a", "old": "        self.n_jobs = n_jobs\n", "new": "        self.n_jobs = n_estimators\n"},
     {"name": "kmeansl1-forward-swapped", "file": "mlinsights/mlmodel/kmeans_l1.py", "rule": "C01.a", "old": "            n_init=n_init,\n            max_iter=max_iter,", "new": "            n_init=max_iter,\n            max_iter=n_init,"},
